@@ -53,6 +53,19 @@ func TestVerifC08P(t *testing.T) {
 		}
 		run(fmt.Sprintf("random%d", i), d, nil, fmt.Sprintf("random|len<%d", (l/50+1)*50))
 	}
+	// honest but large boxes (a long GOP, a big thumbnail track): one mdat of 5, 17 and 40 MiB, read in 64 KiB pieces, small initial buffer
+	for _, mib := range []int{5, 17, 40}[:r.Pick(2, 3)] {
+		body := mib << 20
+		d := make([]byte, 0, body+64)
+		d = append(d, vfBuild([]vfBox{{"styp", 4}, {"moof", 8}}, 1)...)
+		d = append(d, byte(uint32(body+8)>>24), byte(uint32(body+8)>>16), byte(uint32(body+8)>>8), byte(uint32(body+8)), 'm', 'd', 'a', 't')
+		d = append(d, make([]byte, body)...)
+		var cuts []int
+		for c := 65536; c < len(d); c += 65536 {
+			cuts = append(cuts, c)
+		}
+		run(fmt.Sprintf("mdat of %d MiB", mib), d, cuts, fmt.Sprintf("large-box|%dMiB", mib))
+	}
 	r.Sample(map[string]any{"kind": "hostile size field", "example": fmt.Sprintf("%x with size field at offset 12 set to 0", base[:32])})
 	if r.NViolations() > 0 {
 		t.Fail()
